@@ -23,6 +23,37 @@ func init() {
 			return resOK(hexs(b))
 		}
 	}
+	// evm.int.batch: a sequence of encodes in one go; every returned slice is kept and read only after
+	// the last call (a result must not depend on, or be changed by, other calls)
+	RegOp("evm.int.batch", func(in J) any {
+		in = normalise(in).(map[string]any)
+		type kept struct {
+			b   []byte
+			err error
+		}
+		var ks []kept
+		for _, c := range jArr(in["calls"]) {
+			f := evm.EncodePaddedBigInt
+			if jStr(jget(c, "mode")) == "packed" {
+				f = evm.EncodePackedBigInt
+			}
+			b, err := f(jBig(jget(c, "v")), jStr(jget(c, "type")))
+			ks = append(ks, kept{b, err})
+		}
+		outs := make([]any, len(ks))
+		for i, k := range ks {
+			if k.err != nil {
+				outs[i] = resErr(errClass(k.err,
+					[2]string{"invalid Solidity type", "invalid-type"},
+					[2]string{"negative value provided", "out-of-range"},
+					[2]string{"out of range", "out-of-range"},
+					[2]string{"too large", "too-large"}), k.err)
+			} else {
+				outs[i] = resOK(hexs(k.b))
+			}
+		}
+		return resOK(outs)
+	})
 	RegOp("evm.int.packed", mk(evm.EncodePackedBigInt))
 	RegOp("evm.int.padded", mk(evm.EncodePaddedBigInt))
 	RegGen("C13", "all 64 Solidity integer types × boundary table {min-1,min,min+1,-1,0,1,max-1,max,max+1,±2^k} plus random values up to 300 bits plus malformed type strings; non-trivial = valid type (both accept and reject cases count); distinct = different op line", genC13)
@@ -33,6 +64,39 @@ var badTypes = []string{"", "int", "uint", "int0", "int7", "int257", "uint264", 
 
 func genC13(g *G) {
 	pow := func(k int) *big.Int { return new(big.Int).Lsh(big.NewInt(1), uint(k)) }
+	// histories: the same encoders called in arbitrary (not width-sorted) order, results retained
+	defer func() {
+		types := []string{}
+		for bits := 8; bits <= 256; bits += 8 {
+			types = append(types, fmt.Sprintf("int%d", bits), fmt.Sprintf("uint%d", bits))
+		}
+		for i := 0; i < g.N(150, 2000); i++ {
+			calls := []any{}
+			for k := 2 + g.R.Intn(14); k > 0; k-- {
+				t := types[g.R.Intn(len(types))]
+				bits := 8 * (1 + g.R.Intn(32))
+				v := new(big.Int).Rand(g.R, pow(1+g.R.Intn(bits)))
+				if g.R.Intn(3) != 0 {
+					v.Neg(v)
+				}
+				mode := "padded"
+				if g.R.Intn(4) == 0 {
+					mode = "packed"
+				}
+				calls = append(calls, J{"mode": mode, "type": t, "v": v.String()})
+			}
+			g.Emit(J{"op": "evm.int.batch", "calls": calls}, "batch")
+		}
+		// single ops in shuffled order (a narrow negative after a wide one)
+		for i := 0; i < g.N(600, 6000); i++ {
+			t := types[g.R.Intn(len(types))]
+			v := new(big.Int).Rand(g.R, pow(1+g.R.Intn(260)))
+			if g.R.Intn(3) != 0 {
+				v.Neg(v)
+			}
+			g.Emit(J{"op": "evm.int.padded", "type": t, "v": v.String()}, "valid-type", "shuffled")
+		}
+	}()
 	for _, signed := range []bool{false, true} {
 		for bits := 8; bits <= 256; bits += 8 {
 			t := fmt.Sprintf("int%d", bits)
@@ -79,6 +143,26 @@ func genC13(g *G) {
 // monC13: independent oracle: succeeds iff representable; bytes are N/8 big-endian two's complement
 // (packed) or its 32-byte sign extension (padded).
 func monC13(op J, res any) (viol []Violation, nontrivial bool) {
+	if jStr(op["op"]) == "evm.int.batch" {
+		r := jObj(res)
+		if r["panic"] != nil {
+			return []Violation{{Sig: "C13/panic", Desc: "integer encoder panicked", Op: op, Res: res}}, true
+		}
+		outs := jArr(r["ok"])
+		for i, c := range jArr(op["calls"]) {
+			if i >= len(outs) {
+				break
+			}
+			sub := J{"op": "evm.int." + jStr(jget(c, "mode")), "type": jget(c, "type"), "v": jget(c, "v")}
+			v, _ := monC13(sub, outs[i])
+			for _, x := range v {
+				x.Op, x.Res = op, res
+				x.Desc = fmt.Sprintf("call %d of a sequence of encodes (results read after the last call): %s", i, x.Desc)
+				viol = append(viol, x)
+			}
+		}
+		return viol, true
+	}
 	t := jStr(op["type"])
 	v := jBig(op["v"])
 	r := jObj(res)
